@@ -332,9 +332,22 @@ def rule_sites(ctx):
            ("Sort::Symbol", "Sort::General"): True, ("Sort::Symbol", "Sort::Symbol"): True, ("Sort::Symbol", "Sort::Integer"): False}
     ctx.add("SITES", "subsort-table", tab == ref, ctx.site(sb), "subsort(v1, v2): integer <= general, symbol <= general, reflexive, nothing else", construct=sorted(tab.items()))
     te = fx.fn("unstable::transitive_equality")
-    src = [hq.render(n) for n in walk(te["body"]) if n.get("k") == "Call" and (callee(n) or "").endswith("unstable::subsort")]
-    ok = len(src) == 8 and all(x.endswith(("subsort(v1, v2)", "subsort(v2, v1)")) for x in src)
-    ctx.add("SITES", "keep-is-subsort", ok, ctx.site(te), "every result (keep, drop) of transitive_equality is guarded by subsort(keep, drop): %d tests" % len(src))
+    from .. import leaves
+    v = sym.Eval(fx, inline_depth=0).function(te)
+    res = []
+    for ts, x in leaves.leaves(v):
+        x = leaves.strip_acc(x)
+        if isinstance(x, tuple) and x[:2] == ("ctor", "Option::Some"):
+            tup = dict(x[2]).get("0")
+            if isinstance(tup, tuple) and tup[:1] == ("list",) and len(tup[1]) == 3:
+                keep, drop = leaves.norm(tup[1][0]), leaves.norm(tup[1][1])
+                guarded = any(t[0] == "cond" and t[2] is True and isinstance(t[1], tuple) and t[1][:1] == ("call",) and t[1][1].endswith("subsort")
+                              and tuple(leaves.norm(leaves.strip_acc(a)) for a in t[1][2]) == (keep, drop) for t in ts)
+                res.append(guarded)
+            else:
+                res.append(False)
+    ctx.add("SITES", "keep-is-subsort", bool(res) and all(res), ctx.site(te),
+            "every result (keep, drop, ..) of transitive_equality is produced under subsort(keep, drop): %d result paths, %d guarded" % (len(res), sum(res)))
 
 
 RULES = [rule_formula, rule_terms, rule_sites]
